@@ -33,7 +33,7 @@ func init() {
 			"every truncation and single-byte extension of honest encodings, every length/count field set to {0,1,actual-1,actual+1,2^k-1,2^k}, varints re-encoded in 1/2/4/8 bytes up to 2^62-1, every type tag, splices, seeded bit flips and random strings behind valid headers. " +
 			"Oracle per call: it returns (no panic, no process death, no CPU-time stall) and allocates at most C + S*len(input) bytes (runtime/metrics /gc/heap/allocs:bytes; C and S calibrated at start-up as 8x the largest honest allocation and 8x the largest honest bytes-per-input-byte ratio). Each call is journalled before it is made; workers run under RLIMIT_AS. " +
 			"A second, coverage-guided stage runs Go's native fuzzer (FuzzC03 in props/fuzz_test.go: mutated (target, input) pairs seeded with the honest and the well-framed hostile encodings, same oracle) for 40 000 / 4 000 000 executions. distinct_nontrivial = distinct (target, outcome, mutation family) triples",
-		Floors:            []string{"calls_returned", "outcome_accept", "outcome_reject", "family_truncate", "family_lenfield", "family_varint", "family_tag", "family_random", "family_extend", "family_rebuild", "type3_sealed_response_selfcheck_ok", "malformed_by_construction_rejected"},
+		Floors:            []string{"calls_returned", "outcome_accept", "outcome_reject", "family_truncate", "family_lenfield", "family_varint", "family_tag", "family_random", "family_extend", "family_rebuild", "type3_sealed_response_selfcheck_ok", "malformed_by_construction_rejected", "honest_input_served_after_hostile_inputs"},
 		Assumptions:       []string{"amd64", "ed25519.Verify is only ever given a 32-byte public key (a different key length is a documented caller-side precondition, not peer data)"},
 		HostileBytes:      true,
 		StallIsViolation:  true,
@@ -72,6 +72,7 @@ type c03Target struct {
 }
 
 type c03World struct {
+	honestOK   map[string]bool
 	c          *core.Ctx
 	allocC     uint64
 	allocSlope uint64
@@ -342,7 +343,7 @@ func (w *c03World) mutate(t *c03Target, seed []byte, family string, r *core.Rand
 var c03Families = []string{"truncate", "extend", "lenfield", "varint", "tag", "bitflip", "random", "rebuild", "malformed"}
 
 func runC03(c *core.Ctx) {
-	w := &c03World{c: c}
+	w := &c03World{c: c, honestOK: map[string]bool{}}
 	w.build()
 	// calibration of the allocation constant on the honest encodings of every target
 	var maxHonest, maxRatio uint64
@@ -351,7 +352,11 @@ func runC03(c *core.Ctx) {
 			for rep := 0; rep < 2; rep++ {
 				buf := append([]byte{}, s...)
 				before := allocBytes()
-				core.Guard(func() { t.call(buf) })
+				core.Guard(func() {
+					if t.call(buf) {
+						w.honestOK[t.name+"#"+fmt.Sprint(len(s))] = true
+					}
+				})
 				d := allocBytes() - before
 				if d > maxHonest {
 					maxHonest = d
@@ -385,6 +390,20 @@ func runC03(c *core.Ctx) {
 					continue
 				}
 				w.mutate(t, seed, fam, c.CaseRng())
+				// after a family of hostile inputs the same object still serves the honest input it served before
+				// (a failing call must not leave an issuer, attester, client state or decoder broken for later calls)
+				if w.honestOK[t.name+"#"+fmt.Sprint(len(seed))] {
+					var ok bool
+					buf := clone(seed)
+					pan, pv, _ := core.Guard(func() { ok = t.call(buf) })
+					c.Eval(1)
+					if pan || !ok {
+						c.Violation("honest-input-refused-after-hostile-inputs:"+t.name, fmt.Sprintf("%s served its honest input before and refuses it after the %s family of hostile inputs was fed to the same object (%s)", t.name, fam, pv),
+							map[string]any{"target": t.name, "family": fam, "honest_input": core.Hex(seed)})
+					} else {
+						c.Class("honest_input_served_after_hostile_inputs")
+					}
+				}
 				if si == 0 && fam == "truncate" {
 					c.Sample("target", map[string]any{"target": t.name, "honest_len": len(seed), "seeds": len(t.seeds), "index": ti})
 				}
